@@ -443,7 +443,52 @@ def rule_wmin(rep, F, inv, aud):
                 t_ = fn["bbs"][c.bb]["t"]
                 src_ = direct_call_of(fn, t_[3][-1]) if t_[3] else None
                 if src_ and src_[1].endswith("Sz::canonical"):
-                    rep.allow("W-min")
+                    # ... of the item's own CBOR argument: for a negative integer n that is -1 - n (not the magnitude |n|, which is one
+                    # larger and crosses every width boundary one value early: -24, -256, -65536, -2^32 would get a head one size too wide)
+                    ok_arg = True
+                    if short == "write_negative_integer_sz":
+                        ok_arg = False
+                        defs_ = {}
+                        for bb_ in fn["bbs"]:
+                            for st_ in bb_["st"]:
+                                if st_[1] == "=":
+                                    defs_.setdefault(st_[2], []).append(st_[3])
+
+                        def back_(op, depth=0):
+                            """follow use / cast / tuple-field copies of single-definition locals to a (Sub const -1, x) statement -> x local"""
+                            if op[0] == "k" or depth > 8:
+                                return None
+                            pl = op[1].replace("|t:0", "")
+                            ds = defs_.get(pl, [])
+                            if len(ds) != 1:
+                                return None
+                            rv = ds[0]
+                            if rv[0] == "bin" and rv[1] in ("Sub", "SubWithOverflow") and rv[2][0] == "k" and str(rv[2][1]).startswith("-1_"):
+                                o2 = rv[3]
+                                for _ in range(4):
+                                    if o2[0] != "k" and len(defs_.get(o2[1], [])) == 1 and defs_[o2[1]][0][0] == "use":
+                                        o2 = defs_[o2[1]][0][1]
+                                    else:
+                                        break
+                                return o2[1] if o2[0] != "k" else None
+                            if rv[0] in ("use",):
+                                return back_(rv[1], depth + 1)
+                            if rv[0] == "cast":
+                                return back_(rv[2], depth + 1)
+                            return None
+                        canon_t = fn["bbs"][src_[0]]["t"]
+                        x_ = back_(canon_t[3][0]) if canon_t[3] else None
+                        v_ = t_[3][1]
+                        for _ in range(4):
+                            if v_[0] != "k" and len(defs_.get(v_[1], [])) == 1 and defs_[v_[1]][0][0] == "use":
+                                v_ = defs_[v_[1]][0][1]
+                            else:
+                                break
+                        ok_arg = x_ is not None and v_[0] != "k" and x_ == v_[1]
+                    if ok_arg:
+                        rep.allow("W-min")
+                        continue
+                    rep.violation("W-min", "%s|%s|canonical-arg" % (base, short), "%s sizes the head of a negative integer n with Sz::canonical of something other than its CBOR argument -1 - n: with the magnitude |n| the four boundary values -24, -256, -65536, -4294967296 are written one head size too wide (`38 17` instead of `37`)" % base, {})
                     continue
                 rep.violation("W-min", "%s|%s" % (base, short), "%s calls the explicit-size writer %s with a size that is not Sz::canonical(..): heads longer than necessary can be emitted" % (base, short), {})
             if short == "write_raw_bytes":
